@@ -80,7 +80,7 @@ template <class B> json view_at(B const& b, unsigned char const* lo, unsigned ch
     json v = json::array();
     if (b.size() == 0) { return v; }
     auto const* p = static_cast<unsigned char const*>(b.data());
-    if (p == nullptr || p < lo || b.size() > (std::size_t)(hi - lo) || p + b.size() > hi) {
+    if (p == nullptr || p < lo || p > hi || b.size() > (std::size_t)(hi - p)) {
         v.push_back(-1);
         return v;
     }
